@@ -13,6 +13,7 @@ import (
 	"sync"
 	"sync/atomic"
 	"testing"
+	"time"
 
 	"go.sia.tech/core/types"
 	"go.sia.tech/coreutils/chain"
@@ -157,6 +158,41 @@ func TestConcurrent(t *testing.T) {
 					runtime.Gosched()
 				}
 			}(pi, name)
+		}
+		// pruner (C19's concurrent quantifier): PruneBlocks at random heights while blocks are being
+		// submitted and subscribers poll; a scheduling point inside every store.PruneBlock call lets
+		// the other goroutines run in the middle of a prune if the manager's lock allows it
+		if os.Getenv("VERIF_CONC_PRUNE") == "1" {
+			n.Store.pruneGate = func() { runtime.Gosched(); time.Sleep(50 * time.Microsecond) }
+			wg.Add(1)
+			go func() {
+				defer wg.Done()
+				prng := rand.New(rand.NewSource(seed*10 + 7))
+				for {
+					select {
+					case <-done:
+						return
+					default:
+					}
+					ph := prng.Intn(int(n.CM.Tip().Height) + 3)
+					slot := order.begin()
+					func() {
+						defer func() {
+							if r := recover(); r != nil {
+								mismatch("driver:c19:prune-panic", fmt.Sprintf("PruneBlocks(%d) panicked: %v", ph, r))
+							}
+						}()
+						n.CM.PruneBlocks(uint64(ph))
+					}()
+					e := emptyEv("Prune")
+					e.H = ph
+					mu.Lock()
+					calls = append(calls, callRec{*slot, []ev{e}})
+					mu.Unlock()
+					res.Count("concurrent_prunes", 1)
+					time.Sleep(time.Duration(20+prng.Intn(300)) * time.Microsecond)
+				}
+			}()
 		}
 		// submitter
 		var sched []int
